@@ -27,7 +27,7 @@ EXPLANATION = (
     ' (R5) no class of the InverterError family is a subclass of an exception class that a handler of the protocol layer catches as a network error (OSError, CancelledError, TimeoutError); call-arity TypeErrors are exception sources; a failure kind that no longer reaches its counting handler in _read_from_socket is a violation.'
     ' Indexing text decoded from a response at a fixed position is an IndexError source unless a length test guards it.'
     " (R6) no method of the protocol classes calls a method / reads an attribute on self.<attr> right after a test found it unset, on any path including the exception handlers; an argument whose inferred type cannot match the parameter's annotation is a TypeError source."
-    ' (R7) read_device_info() uses an attribute that __init__ leaves None as text only after assigning it on the same path (model predicates summarised); (R8) definite assignment: no local is read before it is assigned on any path of the inverter / protocol classes.'
+    ' (R7) read_device_info() uses an attribute that __init__ leaves None as text only after assigning it on the same path (model predicates summarised); (R8) definite assignment: no local is read before it is assigned on any path of the inverter / protocol classes and of the entry functions connect / discover / search_inverters (discover, whose paths are too many, by a may-assigned dataflow: a read no assignment can have reached).'
 )
 
 DOCUMENTED_EXPLICIT = ("ValueError", "NotImplementedError")
@@ -217,6 +217,113 @@ def _none_unsafe_attrs(fn, pname: str, optional) -> set:
     return out
 
 
+def _never_assigned_reads(fn_node):
+    """Reads of a local name at a point where no path from the function's entry has assigned it (may-assigned sets:
+    union at joins, handlers start with everything the try body may assign, loops are closed under their body).  Such
+    a read fails with UnboundLocalError whenever it is reached - no assumption about which calls raise is needed.
+    Used where the paths of a function are too many to enumerate."""
+    out = []
+    scope_stop = (ast.FunctionDef, ast.AsyncFunctionDef, ast.Lambda, ast.ClassDef)
+
+    def stores(node):
+        acc = set()
+        for x in ast.walk(node):
+            if isinstance(x, ast.Name) and isinstance(x.ctx, (ast.Store, ast.Del)):
+                acc.add(x.id)
+            elif isinstance(x, ast.ExceptHandler) and x.name:
+                acc.add(x.name)
+            elif isinstance(x, (ast.Import, ast.ImportFrom)):
+                acc.update(a.asname or a.name.split(".")[0] for a in x.names)
+        return acc
+
+    def reads(expr, may):
+        if expr is None:
+            return
+        comp = {y.id for x in ast.walk(expr) if isinstance(x, ast.comprehension) for y in ast.walk(x.target) if isinstance(y, ast.Name)}
+        walrus = {x.target.id for x in ast.walk(expr) if isinstance(x, ast.NamedExpr) and isinstance(x.target, ast.Name)}
+        stack = [expr]
+        while stack:
+            x = stack.pop()
+            if isinstance(x, scope_stop):
+                continue
+            if isinstance(x, ast.Name) and isinstance(x.ctx, ast.Load) and x.id not in may and x.id not in comp and x.id not in walrus:
+                out.append(x)
+            stack.extend(ast.iter_child_nodes(x))
+
+    def block(stmts, may):
+        for st in stmts:
+            may = stmt(st, may)
+        return may
+
+    def stmt(st, may):
+        if isinstance(st, (ast.FunctionDef, ast.AsyncFunctionDef, ast.ClassDef)):
+            return may | {st.name}
+        if isinstance(st, ast.If):
+            reads(st.test, may)
+            may = may | stores(st.test)
+            return block(st.body, set(may)) | block(st.orelse, set(may))
+        if isinstance(st, (ast.For, ast.AsyncFor)):
+            reads(st.iter, may)
+            inner = may | stores(st.target) | stores(ast.Module(body=st.body, type_ignores=[]))
+            block(st.body, set(inner))
+            return block(st.orelse, set(inner))
+        if isinstance(st, ast.While):
+            inner = may | stores(ast.Module(body=st.body, type_ignores=[])) | stores(st.test)
+            reads(st.test, inner if may != inner else may)
+            block(st.body, set(inner))
+            return block(st.orelse, set(inner))
+        if isinstance(st, ast.Try):
+            body_may = block(st.body, set(may))
+            everything = may | stores(ast.Module(body=st.body, type_ignores=[]))
+            acc = block(st.orelse, set(body_may))
+            for h in st.handlers:
+                acc = acc | block(h.body, everything | ({h.name} if h.name else set()))
+            return block(st.finalbody, acc | everything)
+        if isinstance(st, (ast.With, ast.AsyncWith)):
+            for it in st.items:
+                reads(it.context_expr, may)
+                if it.optional_vars is not None:
+                    may = may | stores(it.optional_vars)
+            return block(st.body, may)
+        if isinstance(st, ast.AugAssign):
+            reads(st.value, may)
+            if isinstance(st.target, ast.Name):
+                if st.target.id not in may:
+                    out.append(st.target)
+            else:
+                reads(st.target, may)
+            return may | stores(st.target)
+        if isinstance(st, (ast.Assign, ast.AnnAssign)):
+            reads(st.value, may)
+            may = may | (stores(st.value) if st.value is not None else set())
+            for t in (st.targets if isinstance(st, ast.Assign) else [st.target]):
+                reads(t, may)               # subscripts / attributes of the target are loads
+                if not (isinstance(st, ast.AnnAssign) and st.value is None):
+                    may = may | stores(t)
+            return may
+        for child in ast.iter_child_nodes(st):
+            if isinstance(child, ast.expr):
+                reads(child, may)
+        return may | stores(st)
+
+    a_ = fn_node.args
+    params = {x.arg for x in a_.posonlyargs + a_.args + a_.kwonlyargs} | ({a_.vararg.arg} if a_.vararg else set()) | ({a_.kwarg.arg} if a_.kwarg else set())
+    block(fn_node.body, set(params))
+    return out
+
+
+def _many_paths(ctx: Ctx, fn) -> bool:
+    """More than 1500 paths under the network oracle (loops over the families with a try block in the body)."""
+    from ..paths import Enumerator
+    from .proto import net_mayraise, _callback_oracle
+    mr, extra = net_mayraise(ctx), _callback_oracle(ctx)
+    try:
+        Enumerator(ctx.prog, fn, lambda node, f: list(dict.fromkeys(list(mr.oracle(node, f)) + list(extra(node, f)))), 2, max_paths=1500).paths()
+    except AnalysisError:
+        return True
+    return False
+
+
 def r8_unbound(ctx: Ctx, rep: Report):
     """Definite assignment along every path (exception handlers included) of the methods of the inverter and protocol
     classes: a name that is local to the function (assigned somewhere in it) is read only after an assignment on the
@@ -228,8 +335,12 @@ def r8_unbound(ctx: Ctx, rep: Report):
     classes = list(prog.all_subclasses(inv, include_self=True)) + [c for ci in list.__iter__(_pcs(ctx)) for c in prog.mro(ci) if isinstance(c, ClassInfo)] \
         + [prog.cls("ProtocolCommand"), prog.cls("ProtocolResponse")]
     seen, nfn, nbad = set(), 0, 0
-    for ci in classes:
-        for m in ci.methods.values():
+    # ... and the module-level functions of the package's entry module (connect, discover, search_inverters)
+    entry = [f for f in res.all_funcs() if f.cls is None and not f.is_lambda and f.module.name == "goodwe" and isinstance(f.node, (ast.FunctionDef, ast.AsyncFunctionDef))]
+    if len(entry) < 3:
+        raise AnalysisError("expected the entry functions connect / discover / search_inverters in goodwe/__init__.py, found %s" % [f.short for f in entry])
+    for holder in list(classes) + [None]:
+        for m in (holder.methods.values() if holder is not None else entry):
             if m.qualname in seen or m.is_lambda:
                 continue
             seen.add(m.qualname)
@@ -256,6 +367,14 @@ def r8_unbound(ctx: Ctx, rep: Report):
             import_names = {a.asname or a.name.split(".")[0] for n in ast.walk(m.node) if isinstance(n, (ast.Import, ast.ImportFrom)) for a in n.names}
             locals_ = (stored - globs) - comp_vars
             if not locals_:
+                continue
+            if holder is None and _many_paths(ctx, m):
+                # too many paths to follow one by one: reads that no path can have assigned before
+                for x in _never_assigned_reads(m.node):
+                    if x.id in locals_ and x.id not in (nested | with_vars | import_names):
+                        nbad += 1
+                        rep.violation("C09.R8", "unbound:%s:%s" % (m.short, x.id), m.loc(x),
+                                      "%s reads the local '%s' at a point no assignment to it can have reached: UnboundLocalError" % (m.short, x.id))
                 continue
             try:
                 paths = protocol_paths(ctx, m)
@@ -303,7 +422,7 @@ def r8_unbound(ctx: Ctx, rep: Report):
                                 nbad += 1
                                 rep.violation("C09.R8", "unbound:%s:%s" % (m.short, x.id), m.loc(x),
                                               "%s returns the local '%s' on a path on which nothing has been assigned to it: UnboundLocalError [path %s]" % (m.short, x.id, p.describe(6)))
-    rep.ok("C09.R8", "unbound:scan", "goodwe/", "%d methods of the inverter / protocol classes followed, %d reads of an unassigned name" % (nfn, nbad))
+    rep.ok("C09.R8", "unbound:scan", "goodwe/", "%d methods of the inverter / protocol classes and entry functions followed, %d reads of an unassigned name" % (nfn, nbad))
 
 
 def r7_unset_text(ctx: Ctx, rep: Report):
